@@ -67,9 +67,17 @@ class NGen(TGen):
             return f"({self.e_str(d-1)} ~ {self.e_any(d-1)})"
         if k < 0.85:
             return f"({self.e_str(d-1)})|{r.choice(['lower', 'string'])}"
-        if k < 0.93:
+        if k < 0.9:
             lst = self.e_hlist() if r.random() < 0.6 else "(" + self.e_list(d-1) + ")"
-            return f"{lst}|join({self.lit_str()})"
+            j = r.random()
+            sep = self.lit_str() if j < 0.5 else (r.choice(self.names) + "|string" if j < 0.8 or not self.macros else self.macro_call())
+            return f"{lst}|join({sep})"
+        if k < 0.97 and self.macros:
+            # str.format / format_map with a rendered fragment as the PATTERN (Markup.format escapes the arguments:
+            # neutral by MarkupSafe's contract; also the sandbox's wrapped format)
+            if r.random() < 0.5:
+                return f"(({self.macro_call()})|string ~ '[{{}}|{{}}]').format({self.e_any(0)}, {r.choice(self.names)}|string)"
+            return f"(({self.macro_call()})|string ~ '[{{k}}]').format_map({{'k': {r.choice(self.names)}|string}})"
         return f"({self.e_str(d-1)} if {self.e_cond(d-1)} else {self.e_str(d-1)})"
 
     def e_hlist(self):
@@ -143,6 +151,9 @@ EXTRA_SETS = [
      lambda g: {"a": g.word()}),
     ({"main.html": "{% macro m(p) %}{{ p }}{{ caller(p) }}{% endmacro %}{% call(q) m(a) %}{{ q }}{% set z %}{{ q }}{% endset %}{{ z }}{{ z ~ q }}{% endcall %}"},
      lambda g: {"a": g.word()}),
+    ({"main.html": "{% macro m(p) %}<{{ p }}>{% endmacro %}{% set s %}{{ a }}:{% endset %}{{ (m(a) ~ '{}|{k}').format(a, k=b) }}{{ (s ~ '{k}').format_map({'k': a}) }}"
+                   "{{ [m(a), m(b), a]|join(s) }}{{ [a, m(a)]|join(m(b)) }}"},
+     lambda g: {"a": g.word(), "b": g.word()}),
     ({"main.html": "{% include 'inc.html' %}{% set x %}{% include 'inc.html' %}{% endset %}{{ x }}{{ x ~ a }}",
       "inc.html": "{{ a }}{% set y %}{{ a }}{% endset %}{{ y }}"},
      lambda g: {"a": g.word()}),
@@ -277,7 +288,7 @@ def run(ctx):
         for _ in range(ctx.size(15, 200)):
             g = TGen(ctx.rng, meta=True)
             data = mk(g)
-            w = judge_set(jinja2, ts, "main.html", data, ctx, kind="extra")
+            w = judge_set(jinja2, ts, "main.html", data, ctx, kind="extra", axis=ctx.rng.choice(SET_AXES))
             if w:
                 ctx.reject({"kind": "set", "templates": ts, "data": data}, w, "C16:template-set")
 
@@ -530,18 +541,35 @@ def vary(rng, data):
     return make
 
 
-def render_set(jinja2, ts, main, data, autoescape):
+SET_AXES = ("plain", "plain", "sandbox", "immutable_sandbox", "async", "unoptimized")
+
+
+def render_set(jinja2, ts, main, data, autoescape, axis="plain"):
     data = data() if callable(data) else data
     try:
-        env = jinja2.Environment(loader=jinja2.DictLoader(ts), autoescape=autoescape)
+        from jinja2 import sandbox
+        cls, kw = jinja2.Environment, {}
+        if axis == "sandbox":
+            cls = sandbox.SandboxedEnvironment
+        elif axis == "immutable_sandbox":
+            cls = sandbox.ImmutableSandboxedEnvironment
+        elif axis == "async":
+            kw["enable_async"] = True
+        elif axis == "unoptimized":
+            kw["optimized"] = False
+        env = cls(loader=jinja2.DictLoader(ts), autoescape=autoescape, **kw)
         return env.get_template(main).render(**data)
     except Exception:
         return None
 
 
-def judge_set(jinja2, ts, main, data, ctx, kind="set"):
-    on = render_set(jinja2, ts, main, data, True)
-    off = render_set(jinja2, ts, main, data, False)
+def judge_set(jinja2, ts, main, data, ctx, kind="set", axis=None):
+    if axis is None:
+        axis = SET_AXES[hash((main, len(ts), len(repr(sorted(ts.items()))))) % len(SET_AXES)]
+    if ctx:
+        ctx.count("set_axis_" + axis)
+    on = render_set(jinja2, ts, main, data, True, axis)
+    off = render_set(jinja2, ts, main, data, False, axis)
     shown = repr(data()) if callable(data) else repr(data)
     return judge_pair(on, off, ctx, (kind, repr(sorted(ts.items())), shown),
                       {"oracle": "O-sets", "templates": ts, "data": shown}, True, "o_" + kind)
